@@ -68,7 +68,25 @@ MayRefuse(ref) == \E i \in 1..Len(ref) : ref[i][1] = "st" /\ ref[i][2] \in {n_se
 \* known finding S17: lol-html delivered a bogus comment "[CDATA[...": a CDATA section that the standard
 \* allows (adjusted current node is an SVG / MathML element, here an integration point) was not recognised
 cCDATA == <<91, 67, 68, 65, 84, 65, 91>>
-SigS17(o) == \E i \in 1..Len(o.toks) : o.toks[i].k = "cm" /\ Len(o.toks[i].text) >= 7 /\ SubSeq(o.toks[i].text, 1, 7) = cCDATA
+HasCdataComment(o) == \E i \in 1..Len(o.toks) : o.toks[i].k = "cm" /\ Len(o.toks[i].text) >= 7 /\ SubSeq(o.toks[i].text, 1, 7) = cCDATA
+\* ... and that is the whole difference: walking both streams, they agree except where lol-html has such a comment
+\* "[CDATA[x]]" and the reference has the text x (possibly merged with neighbouring text)
+IsCdataCm(t) == t[1] = "cm" /\ Len(t[2]) >= 9 /\ SubSeq(t[2], 1, 7) = cCDATA /\ SubSeq(t[2], Len(t[2]) - 1, Len(t[2])) = <<93, 93>>
+Inner(t) == SubSeq(t[2], 8, Len(t[2]) - 2)
+PrefixOf(a, b) == Len(a) <= Len(b) /\ SubSeq(b, 1, Len(a)) = a
+RestTx(b, n) == IF n = Len(b[2]) THEN <<>> ELSE << <<"tx", SubSeq(b[2], n + 1, Len(b[2]))>> >>
+RECURSIVE Expl(_, _)
+Expl(g, e) ==
+  IF g = <<>> THEN e = <<>>
+  ELSE LET a == Head(g) IN
+       IF IsCdataCm(a) /\ Inner(a) = <<>> /\ (e = <<>> \/ Head(e) # a) THEN Expl(Tail(g), e)
+       ELSE IF e = <<>> THEN FALSE
+       ELSE LET b == Head(e) IN
+            IF a = b THEN Expl(Tail(g), Tail(e))
+            ELSE IF a[1] = "tx" /\ b[1] = "tx" /\ PrefixOf(a[2], b[2]) THEN Expl(Tail(g), RestTx(b, Len(a[2])) \o Tail(e))
+            ELSE IF IsCdataCm(a) /\ b[1] = "tx" /\ PrefixOf(Inner(a), b[2]) THEN Expl(Tail(g), RestTx(b, Len(Inner(a))) \o Tail(e))
+            ELSE FALSE
+SigS17x(o, got, exp) == HasCdataComment(o) /\ Expl(got, exp)
 \* every tag is announced to the controller (where selector matching runs) exactly once, as what it is: o.hints
 \* is the sequence of TransformController::handle_start_tag / handle_end_tag calls (name known when hashable);
 \* this is the observable counterpart of ModeSwitch!MatchedAll
@@ -94,7 +112,7 @@ ObsVerdict(r, ref, h5s, o) ==
   ELSE IF got = exp THEN "ok"
   \* text-only / comment-only captures merge text across dropped tokens: compare after the same merge
   ELSE IF got = NonEmpty(Merge(exp)) THEN "ok"
-  ELSE IF ref = h5s THEN "C03: token stream differs from the WHATWG tokenization (" \o o.variant \o ")" \o (IF SigS17(o) THEN " [signature:S17]" ELSE "")
+  ELSE IF ref = h5s THEN "C03: token stream differs from the WHATWG tokenization (" \o o.variant \o ")" \o (IF SigS17x(o, got, exp) THEN " [signature:S17]" ELSE "")
   ELSE "inconclusive"
 
 RECURSIVE Fold(_, _, _, _, _)
